@@ -420,7 +420,9 @@ int32_t jls_raw_chunk_scan(struct jls_raw_s * self) {
         if ((offset + (int64_t) sz) > offset_end) {
             sz = offset_end - offset;
         }
-        size_t sz_block = sz;
+        if (sz < sizeof(struct jls_chunk_header_s)) {
+            break;  // no room left for a chunk header
+        }
         jls_bk_fread(&self->backend, buffer, (unsigned const) sz);
         while (sz >= sizeof(struct jls_chunk_header_s)) {
             struct jls_chunk_header_s * hdr = (struct jls_chunk_header_s *) b;
@@ -432,7 +434,7 @@ int32_t jls_raw_chunk_scan(struct jls_raw_s * self) {
             b += HEADER_ALIGN;
             offset += HEADER_ALIGN;
         }
-        offset += sz_block - sizeof(struct jls_chunk_header_s) + 8;
+        // offset is now the first candidate that was not examined: the next block starts there
     }
     return JLS_ERROR_NOT_FOUND;
 }
